@@ -79,7 +79,7 @@ func (c16) RequiredBuckets(tier string) []string {
 	for _, b := range c16BadBytes {
 		out = append(out, fmt.Sprintf("badbyte|%d", b))
 	}
-	out = append(out, "sep|first-of-line", "sep|inner", "idxw-large|5", "idxw-large|6", "idxw-large|7", "idxw-large|8", "idxw-large|9", "stream:collected-then-decoded", "stream:slow-path", "stream:fast-path", "malformed:intact-declared-block-then-surplus-lines")
+	out = append(out, "sep|first-of-line", "sep|inner", "record|contig-only", "idxw-large|5", "idxw-large|6", "idxw-large|7", "idxw-large|8", "idxw-large|9", "stream:collected-then-decoded", "stream:slow-path", "stream:fast-path", "malformed:intact-declared-block-then-surplus-lines")
 	for b := 33; b <= 126; b++ {
 		out = append(out, fmt.Sprintf("res|%d", b))
 	}
@@ -237,19 +237,35 @@ func (m c16) positive(c *fw.Ctx, n int, alpha string, sub int64) {
 	// 1. formatting, size arithmetic, decoding, Len without decoding.
 	c.Bucket("api|fresh-origin")
 	{
-		var str0, str1 string
+		var str0, str1, str2 string
 		var len0, len1, toLen, fromLen int
 		var dec []byte
 		in := append([]byte(nil), p...)
+		// other residues of the same length, for the decoded value to hold next.
+		p2 := make([]byte, n)
+		for i := range p2 {
+			p2[i] = byte(33 + (int(p[i])-33+17+i)%93)
+			if p2[i] == '>' {
+				p2[i] = '!'
+			}
+		}
 		pn, val, site, stack := fw.Guard(func() {
 			o := seqio.NewOrigin(in)
 			len0 = o.Len()
 			str0 = o.String()
 			toLen = seqio.VerifToOriginLength(n)
 			fromLen = seqio.VerifFromOriginLength(len(block))
-			dec = o.Bytes()
+			dec = append([]byte(nil), o.Bytes()...)
 			len1 = o.Len()
 			str1 = o.String()
+			// a decoded Origin is its residues: given other residues of the
+			// same length it lays those out.
+			if o.Parsed {
+				o.Buffer = append([]byte(nil), p2...)
+				str2 = o.String()
+			} else {
+				str2 = string(model.OriginBlock(p2))
+			}
 		})
 		if pn {
 			c.ViolateX("origin-api:"+panicClass(site, val), enc, "no panic", fmt.Sprint(val), stack, nil)
@@ -271,6 +287,8 @@ func (m c16) positive(c *fw.Ctx, n int, alpha string, sub int64) {
 			badInt("len:after-decoding", n, len1)
 		case str1 != string(block):
 			bad("format:block-after-decoding", block, []byte(str1))
+		case str2 != string(model.OriginBlock(p2)):
+			bad("format:block-of-reassigned-residues", model.OriginBlock(p2), []byte(str2))
 		default:
 			okAPI = true
 		}
@@ -599,6 +617,16 @@ func (m c16) negative(c *fw.Ctx, n int, alpha string, sub int64, k c16Neg) {
 	case "non-printable":
 		c.Bucket(fmt.Sprintf("badbyte|%d", k.b))
 	}
+	recAccepted := map[string]bool{}
+	recResidues := map[string][]byte{}
+	defer func() {
+		// as the last (only) record of a stream the twin is read through the
+		// fast path (LF) and the slow path (CRLF): the same verdict on both.
+		if len(recAccepted) == 2 && (recAccepted["LF"] != recAccepted["CRLF"] || !bytes.Equal(recResidues["LF"], recResidues["CRLF"])) {
+			c.Violate("record:fast-and-slow-path-disagree:"+k.kind, enc, "the LF record and its CRLF twin are both rejected, or both read with the same residues",
+				fmt.Sprintf("LF accepted=%v (%d residues), CRLF accepted=%v (%d residues)", recAccepted["LF"], len(recResidues["LF"]), recAccepted["CRLF"], len(recResidues["CRLF"])))
+		}
+	}()
 	for _, eol := range []string{"LF", "CRLF"} {
 		c.Bucket("neg|" + k.kind + "|" + eol)
 		c.Bucket("eol|" + eol)
@@ -664,11 +692,21 @@ func (m c16) negative(c *fw.Ctx, n int, alpha string, sub int64, k c16Neg) {
 			rec := c16Record(d, blk, eol == "CRLF")
 			pn, val, site, stack := fw.Guard(func() {
 				s := seqio.NewAutoScanner(bytes.NewReader(rec))
-				if s.Scan() && s.Value() != nil {
-					_ = s.Value().Bytes()
+				var got []byte
+				n := 0
+				for s.Scan() && n < 3 {
+					n++
+					if s.Value() != nil {
+						got = append([]byte(nil), s.Value().Bytes()...)
+					}
+				}
+				recAccepted[eol] = s.Err() == nil && n > 0
+				if recAccepted[eol] {
+					recResidues[eol] = got
 				}
 			})
 			if pn {
+				delete(recAccepted, eol)
 				if c.KFEnabled(c16KFShort) && c16IsShortLinePanic(dev, site, val) {
 					c.Known(c16KFShort, enc+" ["+eol+", scanner]")
 				} else {
@@ -847,6 +885,46 @@ func (m c16) Run(c *fw.Ctx) {
 			m.positive(c, n, alpha, sub)
 		} else {
 			m.negative(c, n, alpha, sub, k)
+		}
+	}
+
+	// F. a record without ORIGIN block (CONTIG only): the length reported
+	// without decoding is the decoded length here too.
+	for _, span := range []int{1, 59, 60, 130, 4641652} {
+		for _, crlf := range []bool{false, true} {
+			if !c.NextShared() {
+				continue
+			}
+			rec := fmt.Sprintf("LOCUS       CTG16 %20d bp    DNA     linear   CON 01-JAN-2020\nDEFINITION  contig only.\nACCESSION   CTG16\nVERSION     CTG16.1\nCONTIG      join(U00096.3:1..%d)\n//\n", span, span)
+			if crlf {
+				rec = string(model.CRLF([]byte(rec)))
+			}
+			enc := fmt.Sprintf("CONTIG-only record spanning %d bases, crlf=%v", span, crlf)
+			c.Begin(enc)
+			c.Count(enc, true)
+			c.Bucket("record|contig-only")
+			var ln, nb, n int
+			var serr error
+			pn, val, site, stack := fw.Guard(func() {
+				s := seqio.NewAutoScanner(strings.NewReader(rec))
+				for s.Scan() && n < 3 {
+					n++
+					ln = gts.Len(s.Value())
+					nb = len(s.Value().Bytes())
+				}
+				serr = s.Err()
+			})
+			if pn {
+				c.ViolateX("contig-only:"+panicClass(site, val), enc, "no panic", fmt.Sprint(val), stack, nil)
+				continue
+			}
+			if serr != nil || n != 1 {
+				c.Violate("contig-only:not-read", enc, "1 record", fmt.Sprintf("%d records, err=%v", n, serr))
+				continue
+			}
+			if ln != nb {
+				c.Violate("contig-only:len-differs-from-decoded-length", enc, fmt.Sprintf("Len() == len(Bytes()) == %d", nb), fmt.Sprintf("Len() = %d", ln))
+			}
 		}
 	}
 
